@@ -19,14 +19,14 @@ CHECKS = {
             "carries exactly one enveloped signature referencing its own ID.",
             TRUST, "3/C01"),
     "C02": ("exploration", "runtime oracle on the API boundary + offline check of the tool event log, exhaustive finite table",
-            "Runs the whole documented option x signed-layout x plain/encrypted x corruption table (again for issuers without a verification key in metadata, for SPs that cannot open the encrypted assertion, for clients built from Config/IdPConfig and for options left out after other SPs were built) through the real "
+            "Runs the whole documented option x signed-layout x plain/encrypted x corruption table (again for issuers without a verification key in metadata, for SPs that cannot open the encrypted assertion, for clients built from Config/IdPConfig, for the package's other crypto backend (through a stand-in for pyXMLSecurity) and for options left out after other SPs were built) through the real "
             "Saml2Client and compares accept/reject with an independent truth table in both directions; the driver's "
             "event log must show a genuine successful verification for every signature present in an accepted cell.",
             TRUST, "3/C02"),
     "C03": ("exploration", "generated federation + outcome oracle + trace oracle over the tool event log (which certificates were tried)",
             "Hand-written metadata for IdPs with signing-only, signing+encryption, use-less, encryption-only, several, expired and not-yet-valid signing certificates and an "
-            "unknown issuer; every pairing of claimed issuer x actual signing key x embedded certificate x level x only_use_keys_in_metadata (and "
-            "assertions naming another issuer than the response) is delivered; accept/reject is compared with the documented rule and the driver log "
+            "unknown issuer, and key descriptors without a certificate next to one that has it; every pairing of claimed issuer x actual signing key x embedded certificate x level x only_use_keys_in_metadata (and "
+            "assertions naming another issuer than the response, also inside the encrypted advice of another issuer's assertion) is delivered; accept/reject is compared with the documented rule and the driver log "
             "must show that no certificate outside the issuer's signing-capable metadata keys (or, with the option off and no such key, the embedded "
             "one) was even tried.",
             TRUST, "3/C03"),
@@ -103,7 +103,7 @@ CHECKS = {
             PURE, "3/C14"),
     "C15": ("exploration", "independent RSA verification + bounded-exhaustive histories + systematic schedule exploration (sys.monitoring gates, CHESS-style DFS)",
             "Signs messages with Entity.apply_binding for all five algorithms and hostile RelayStates and verifies each URL independently (cryptography, raw "
-            "query octets) under all 12 fixture certificates; compares verify_redirect_signature with the independent verdict over ~30 single-parameter "
+            "query octets) under all 12 RSA fixture certificates and three without an RSA key (EC, Ed25519, DSA), verified by the peer and by the signer itself; compares verify_redirect_signature with the independent verdict over ~30 single-parameter "
             "mutations; replays every history of obtain/sign/bind/verify steps up to a bounded length for entities with different keys; and explores "
             "thread interleavings systematically: sys.monitoring PY_START/LINE events in RSACrypto.get_signer and RSASigner.sign are gates, a "
             "controller enumerates all schedules depth first (entry-level: all; line-level: preemption-bounded), plus free-running threads.",
@@ -124,13 +124,13 @@ CHECKS = {
             TRUST, "3/C17"),
     "C18": ("exploration", "reference-model monitor over operation histories (bounded-exhaustive + random), invariants after every step",
             "Replays every operation history up to a bounded depth over 2 users x 2 SPs (abstract-state pruned), long random histories on "
-            "dict- and shelve-backed IdentDB (also opened through Server with restarts), Server-level login histories over every NameIDPolicy shape, hostile field contents and the adversarial user-id class against a dictionary model; after each "
+            "dict- and shelve-backed IdentDB (also opened through Server with restarts), Server-level login histories over every NameIDPolicy shape, hostile field contents, pairs built to collide under an unquoted encoding (code and code_binary) and the adversarial user-id class against a dictionary model; after each "
             "step every live identifier must resolve to its user only, withdrawn ones to nobody, persistent identifiers must be stable and "
             "distinct, and code/decode must be reversible and collision-free.",
             PURE, "3/C18"),
     "C19": ("exploration", "reference-model monitor under a virtual clock, memory and file cache in lock step",
             "Replays every operation sequence up to a bounded depth (set with past/future expiry, reset, delete, clock advance) and long random "
-            "histories (hostile attribute values, subjects differing in one field, file reopen, process time zones other than UTC, up to 400 sources per subject, concurrent threads on the memory backend) on Cache and Population, memory and file backed, "
+            "histories (hostile attribute values, subjects differing in one field, file reopen, process time zones other than UTC, up to 400 sources per subject, callers that write into what a query handed them, concurrent threads on the memory backend) on Cache and Population, memory and file backed, "
             "comparing every query result and exception class with a dictionary model after each step.",
             PURE, "3/C19"),
     "C20": ("fault_enumeration", "fault-injecting external tool (plan via environment) + offline oracle over the tool event log",
